@@ -471,3 +471,14 @@ package log
 //@   unchecked frame,no-panic the record under construction is captured by reference
 //@   ensures ok
 //@   assert@call Record.AddAttributes#1 : len($arg1) == 1 && $arg1[0] == kv
+
+// newChunkExporter: chunking is installed for EVERY positive size (1 included: a backlog flushed by Shutdown / ForceFlush is still cut
+// into single records), with exactly that size, around exactly that exporter; only a size <= 0 means "no chunking"
+//@ func newChunkExporter(exporter Exporter, size int) (r Exporter)
+//@   prop C06
+//@   ensures size <= 0 ==> r == exporter
+//@   ensures size > 0 ==> typeis(r, "*chunkExporter") && cast(r, "*chunkExporter").size == size && cast(r, "*chunkExporter").Exporter == exporter
+//@ func newTimeoutExporter(exp Exporter, timeout time.Duration) (r Exporter)
+//@   prop C06
+//@   ensures timeout <= 0 ==> r == exp
+//@   ensures timeout > 0 ==> typeis(r, "*timeoutExporter") && cast(r, "*timeoutExporter").timeout == timeout && cast(r, "*timeoutExporter").Exporter == exp
